@@ -144,17 +144,17 @@ type c12Store struct {
 }
 
 type c12Env struct {
-	ctx    *runCtx
-	rep    *ev.Report
-	spec   c12Spec
-	c      *cluster.Cluster
-	stores []*c12Store
-	tap    *c12ErrTap
-	cc     *olric.ClusterClient
-	conns  map[string]*respc.Conn
-	embIts int
-	replay bool
-	phase  int
+	ctx     *runCtx
+	rep     *ev.Report
+	spec    c12Spec
+	c       *cluster.Cluster
+	stores  []*c12Store
+	tap     *c12ErrTap
+	cc      *olric.ClusterClient
+	conns   map[string]*respc.Conn
+	embIts  int
+	replay  bool
+	phase   int
 	sampled int
 }
 
@@ -548,8 +548,8 @@ type c12Layout struct {
 	gaps       bool
 	recycled   bool
 	emptyTabs  bool
-	multiOwner int // partitions with more than one listed primary owner
-	owners     int // max listed owners (primary + backup) of a partition
+	multiOwner int               // partitions with more than one listed primary owner
+	owners     int               // max listed owners (primary + backup) of a partition
 	perFrag    map[string][2]int // "member|kind|part" -> entries, tables
 }
 
